@@ -15,5 +15,8 @@ if ! git apply -3 $patch 2>/dev/null || git diff --name-only --diff-filter=U | g
 echo "== tests WITH change"; PYTHONPATH=$wt timeout 900 /venv/bin/python -m pytest -q -p no:cacheprovider tests 2>&1 | tail -4
 echo "== demo WITH change"; PYTHONPATH=$wt timeout 300 /venv/bin/python $demo >/tmp/ev_demo1_$$.txt 2>&1; echo "rc=$?"; tail -3 /tmp/ev_demo1_$$.txt
 echo "== check $pid ($tier) WITH change"
-cd /verif && VERIF_REPO=$wt PYTHONPATH=$wt ./run_check.py $pid --tier $tier 2>&1 | grep -E "^VIOLATION|^  clause|^\[|HARNESS" | cut -c1-260 | head -20
+cd /verif && VERIF_REPO=$wt PYTHONPATH=$wt ./run_check.py $pid --tier $tier > /tmp/ev_check_$$.txt 2>&1
+grep -E "^  clause|HARNESS" /tmp/ev_check_$$.txt | cut -c1-260 | head -12
+echo "   ... $(grep -c '^VIOLATION' /tmp/ev_check_$$.txt) violation classes in total"
+grep -E "^\[C" /tmp/ev_check_$$.txt | tail -1; rm -f /tmp/ev_check_$$.txt
 cd /; git -C /repo worktree remove --force $wt; rm -f /tmp/ev_demo0_$$.txt /tmp/ev_demo1_$$.txt
